@@ -10,7 +10,7 @@ package mocker
 //@ pure func seq_index(k int32, n int) int = ite(int(k) < n, int(k), n - 1)
 
 //@ func (c *BaseMatcher) Result
-//@   props C05
+//@   props C05 C11
 //@   requires nonempty: len(c.results) >= 1
 //@   requires inv: matcher_inv(c)
 //@   assigns c.curNum
